@@ -265,3 +265,427 @@ Proof.
   destruct (marshal_bucket_inj s1 n1 s2 n2 L1 L2 W1 W2 N1 N2 E) as [Es En]. split; [|exact En].
   exact (app_eq_len _ _ _ _ EL Es).
 Qed.
+
+(* ==== 2. file header (header.go) ==== *)
+Lemma header_version : unle (ntake 4 (ndrop 8 header_bytes)) = 2.
+Proof. vm_compute. reflexivity. Qed.
+
+Lemma header_bytes_bytes : Forall byte header_bytes.
+Proof.
+  unfold header_bytes. rewrite !Forall_app. repeat split; [|apply le_bytes|apply zeros_bytes].
+  unfold signature. repeat constructor.
+Qed.
+
+Theorem header_roundtrip rest :
+  header_ok (header_bytes ++ rest) = true /\
+  nlen header_bytes = 512 /\
+  unle (ntake 4 (ndrop 8 header_bytes)) = 2.
+Proof.
+  split; [apply header_ok_header|]. split; [apply nlen_header_bytes|apply header_version].
+Qed.
+
+Lemma format_version_2 : format_version = 2. Proof. reflexivity. Qed.
+
+Lemma header_ok_iff bs : header_ok bs = true <-> ntake 8 bs = signature.
+Proof. unfold header_ok. destruct (bytes_eqb_spec (ntake 8 bs) signature); split; congruence. Qed.
+
+Theorem header_ok_rejects bs :
+  nlen bs = 512 -> ntake 8 bs <> signature -> header_ok bs = false.
+Proof.
+  intros _ H. destruct (header_ok bs) eqn:E; [|reflexivity].
+  apply header_ok_iff in E. contradiction.
+Qed.
+
+(* A block that passes the check starts with the 8 signature bytes. *)
+Theorem header_ok_accepts bs :
+  header_ok bs = true -> exists rest, bs = signature ++ rest.
+Proof.
+  intros H. apply header_ok_iff in H. exists (ndrop 8 bs).
+  rewrite <- H. symmetry. apply ntake_ndrop_id.
+Qed.
+
+(* ==== 3. file names ==== *)
+Definition digit (b : N) : Prop := 48 <= b < 58.
+Definition is_digit (b : N) : bool := (48 <=? b) && (b <? 58).
+
+(* strconv.ParseUint(s, 10, _) without the range check: digits only, not empty *)
+Fixpoint parse_digits (a : N) (bs : bytes) : option N :=
+  match bs with
+  | [] => Some a
+  | b :: bs' => if is_digit b then parse_digits (10 * a + (b - 48)) bs' else None
+  end.
+Definition parse_decimal (bs : bytes) : option N :=
+  match bs with [] => None | _ :: _ => parse_digits 0 bs end.
+
+(* strings.SplitN(s, "-", 2): the part before the first '-' and, if there is one, the part after *)
+Fixpoint split_dash (bs : bytes) : bytes * option bytes :=
+  match bs with
+  | [] => ([], None)
+  | b :: bs' => if b =? 45 then ([], Some bs')
+                else let '(a, r) := split_dash bs' in (b :: a, r)
+  end.
+
+(* strings.TrimSuffix *)
+Definition trim_suffix (suf bs : bytes) : bytes :=
+  let n := nlen bs in
+  let k := nlen suf in
+  if (k <=? n) && bytes_eqb (ndrop (n - k) bs) suf then ntake (n - k) bs else bs.
+
+Definition max_u16 : N := 65536.
+Definition max_u64 : N := 18446744073709551616.
+
+(* datalog.go: parseSegmentName.  A name without '-' (format version 1) has sequence ID 0. *)
+Definition parse_segment_name (name : bytes) : option (N * N) :=
+  let '(a, r) := split_dash (trim_suffix ext_psg name) in
+  match parse_decimal a with
+  | None => None
+  | Some id =>
+    if id <? max_u16 then
+      match r with
+      | None => Some (id, 0)
+      | Some b =>
+        match parse_decimal b with
+        | None => None
+        | Some seq => if seq <? max_u64 then Some (id, seq) else None
+        end
+      end
+    else None
+  end.
+
+(* ---- decimal ---- *)
+Fixpoint dfold (a : N) (ds : bytes) : N :=
+  match ds with [] => a | b :: ds' => dfold (10 * a + (b - 48)) ds' end.
+
+Lemma dfold_app a x y : dfold a (x ++ y) = dfold (dfold a x) y.
+Proof. revert a. induction x as [|b x IH]; intros a; [reflexivity|]. cbn [app dfold]. apply IH. Qed.
+
+Lemma is_digit_true b : digit b -> is_digit b = true.
+Proof. unfold digit, is_digit. intros H. lia. Qed.
+
+Lemma parse_digits_dfold ds : forall a, Forall digit ds -> parse_digits a ds = Some (dfold a ds).
+Proof.
+  induction ds as [|b ds IH]; intros a H; [reflexivity|].
+  inversion H as [|? ? Hb Hds]; subst. cbn [parse_digits dfold].
+  rewrite (is_digit_true b Hb). apply IH. exact Hds.
+Qed.
+
+Lemma parse_decimal_dfold ds :
+  ds <> [] -> Forall digit ds -> parse_decimal ds = Some (dfold 0 ds).
+Proof.
+  intros Hne H. destruct ds as [|b ds]; [congruence|].
+  unfold parse_decimal. apply parse_digits_dfold. exact H.
+Qed.
+
+Lemma digits_fuel_S f n acc :
+  digits_fuel (S f) n acc =
+  if n / 10 =? 0 then (48 + n mod 10) :: acc else digits_fuel f (n / 10) ((48 + n mod 10) :: acc).
+Proof. reflexivity. Qed.
+
+Lemma digit_mod10 n : digit (48 + n mod 10).
+Proof. unfold digit. lia. Qed.
+
+Lemma digits_fuel_digits fuel : forall n acc,
+  Forall digit acc -> Forall digit (digits_fuel fuel n acc).
+Proof.
+  induction fuel as [|f IH]; intros n acc H; [exact H|].
+  rewrite digits_fuel_S.
+  assert (H' : Forall digit ((48 + n mod 10) :: acc)) by (constructor; [apply digit_mod10|exact H]).
+  destruct (n / 10 =? 0); [exact H'|apply IH; exact H'].
+Qed.
+
+Theorem decimal_digits n : Forall (fun b => 48 <= b < 58) (decimal n).
+Proof. apply (digits_fuel_digits 20 n []). constructor. Qed.
+
+Lemma pow10_succ f : 10 ^ N.of_nat (S f) = 10 * 10 ^ N.of_nat f.
+Proof. rewrite Nat2N.inj_succ, N.pow_succ_r'. reflexivity. Qed.
+
+Lemma digits_fuel_spec f : forall n acc,
+  n < 10 ^ N.of_nat (S f) ->
+  exists ds, digits_fuel (S f) n acc = ds ++ acc /\ ds <> [] /\ dfold 0 ds = n.
+Proof.
+  induction f as [|f IH]; intros n acc H; rewrite digits_fuel_S;
+    destruct (N.eqb_spec (n / 10) 0) as [E|E].
+  - exists [48 + n mod 10]. split; [reflexivity|]. split; [discriminate|]. cbn [dfold]. lia.
+  - change (10 ^ N.of_nat 1) with 10 in H. lia.
+  - exists [48 + n mod 10]. split; [reflexivity|]. split; [discriminate|]. cbn [dfold]. lia.
+  - rewrite pow10_succ in H.
+    destruct (IH (n / 10) ((48 + n mod 10) :: acc)) as (ds & E1 & E2 & E3).
+    { set (p := 10 ^ N.of_nat (S f)) in *. lia. }
+    exists (ds ++ [48 + n mod 10]). split; [rewrite E1, <- app_assoc; reflexivity|].
+    split; [destruct ds; discriminate|].
+    rewrite dfold_app, E3. cbn [dfold]. lia.
+Qed.
+
+Lemma pow10_20 : 10 ^ N.of_nat 20 = 10 ^ 20. Proof. reflexivity. Qed.
+
+Lemma decimal_spec n : n < 10 ^ 20 -> decimal n <> [] /\ dfold 0 (decimal n) = n.
+Proof.
+  intros H. rewrite <- pow10_20 in H.
+  destruct (digits_fuel_spec 19 n [] H) as (ds & E1 & E2 & E3).
+  unfold decimal. rewrite E1, app_nil_r. split; assumption.
+Qed.
+
+Theorem parse_decimal_decimal n : n < 10 ^ 20 -> parse_decimal (decimal n) = Some n.
+Proof.
+  intros H. destruct (decimal_spec n H) as [Hne Hv].
+  rewrite parse_decimal_dfold; [rewrite Hv; reflexivity|exact Hne|apply decimal_digits].
+Qed.
+
+(* More fuel changes nothing: fuel 20 is enough for n < 10^20. *)
+Lemma digits_fuel_indep f : forall g n acc,
+  n < 10 ^ N.of_nat (S f) -> (f <= g)%nat -> digits_fuel (S g) n acc = digits_fuel (S f) n acc.
+Proof.
+  induction f as [|f IH]; intros g n acc H Hg; rewrite !digits_fuel_S;
+    destruct (N.eqb_spec (n / 10) 0) as [E|E]; try reflexivity.
+  - change (10 ^ N.of_nat 1) with 10 in H. lia.
+  - rewrite pow10_succ in H. destruct g as [|g]; [lia|].
+    apply IH; [|lia]. set (p := 10 ^ N.of_nat (S f)) in *. lia.
+Qed.
+
+Theorem decimal_fuel_enough n fuel :
+  n < 10 ^ 20 -> (20 <= fuel)%nat -> digits_fuel fuel n [] = decimal n.
+Proof.
+  intros H Hf. rewrite <- pow10_20 in H. destruct fuel as [|g]; [lia|].
+  unfold decimal. apply digits_fuel_indep; [exact H|lia].
+Qed.
+
+(* ---- segment names ---- *)
+Lemma repeat48_digits k : Forall digit (repeat 48 k).
+Proof.
+  apply Forall_forall. intros x Hx. apply repeat_spec in Hx. subst x. unfold digit. lia.
+Qed.
+
+Lemma dfold_repeat48 k : dfold 0 (repeat 48 k) = 0.
+Proof. induction k as [|k IH]; [reflexivity|]. cbn [repeat dfold]. exact IH. Qed.
+
+Lemma decimal_digits' n : Forall digit (decimal n).
+Proof. exact (decimal_digits n). Qed.
+
+Lemma pad5_decimal_digits n : Forall digit (pad5 (decimal n)).
+Proof. unfold pad5. apply Forall_app. split; [apply repeat48_digits|apply decimal_digits']. Qed.
+
+Lemma parse_decimal_pad5 n : n < 10 ^ 20 -> parse_decimal (pad5 (decimal n)) = Some n.
+Proof.
+  intros H. destruct (decimal_spec n H) as [Hne Hv].
+  rewrite parse_decimal_dfold.
+  - unfold pad5. rewrite dfold_app, dfold_repeat48, Hv. reflexivity.
+  - unfold pad5. intros E. apply app_eq_nil in E. destruct E as [_ E]. contradiction.
+  - apply pad5_decimal_digits.
+Qed.
+
+Lemma split_dash_digits a b :
+  Forall digit a -> split_dash (a ++ 45 :: b) = (a, Some b).
+Proof.
+  intros H. induction H as [|x a Hx Ha IH]; cbn [app split_dash]; [reflexivity|].
+  unfold digit in Hx. destruct (N.eqb_spec x 45) as [E|E]; [lia|]. rewrite IH. reflexivity.
+Qed.
+
+Lemma nlen_ext_psg : nlen ext_psg = 4. Proof. reflexivity. Qed.
+
+Lemma trim_suffix_app x : trim_suffix ext_psg (x ++ ext_psg) = x.
+Proof.
+  unfold trim_suffix. rewrite nlen_app, nlen_ext_psg.
+  replace (nlen x + 4 - 4) with (nlen x) by lia.
+  rewrite ndrop_app_exact, ntake_app_exact.
+  destruct (bytes_eqb_spec ext_psg ext_psg) as [_|E]; [|congruence].
+  replace (4 <=? nlen x + 4) with true by lia. reflexivity.
+Qed.
+
+Lemma name_seg_eq id seq :
+  name_str (FSeg id seq) = (pad5 (decimal id) ++ 45 :: decimal seq) ++ ext_psg.
+Proof. cbn [name_str]. rewrite <- app_assoc. reflexivity. Qed.
+
+Lemma max_u16_lt : max_u16 < 10 ^ 20. Proof. reflexivity. Qed.
+Lemma max_u64_lt : max_u64 < 10 ^ 20. Proof. reflexivity. Qed.
+
+(* The general form: every uint16 id and every uint64 sequence ID. *)
+Theorem segname_roundtrip_full id seq :
+  id < max_u16 -> seq < max_u64 ->
+  parse_segment_name (name_str (FSeg id seq)) = Some (id, seq).
+Proof.
+  intros Hi Hs.
+  assert (Hi' : id < 10 ^ 20) by (eapply N.lt_trans; [exact Hi|exact max_u16_lt]).
+  assert (Hs' : seq < 10 ^ 20) by (eapply N.lt_trans; [exact Hs|exact max_u64_lt]).
+  unfold parse_segment_name. rewrite name_seg_eq, trim_suffix_app.
+  rewrite (split_dash_digits _ _ (pad5_decimal_digits id)).
+  rewrite (parse_decimal_pad5 id Hi'), (parse_decimal_decimal seq Hs').
+  apply N.ltb_lt in Hi. apply N.ltb_lt in Hs. rewrite Hi, Hs. reflexivity.
+Qed.
+
+Lemma small_id_u16 id : id < 32768 -> id < max_u16.
+Proof. unfold max_u16. lia. Qed.
+Lemma pow10_19_u64 : 10 ^ 19 < max_u64. Proof. reflexivity. Qed.
+
+Theorem segname_roundtrip id seq :
+  id < 32768 -> seq < 10 ^ 19 ->
+  parse_segment_name (name_str (FSeg id seq)) = Some (id, seq).
+Proof.
+  intros Hi Hs. apply segname_roundtrip_full; [apply small_id_u16; exact Hi|].
+  eapply N.lt_trans; [exact Hs|exact pow10_19_u64].
+Qed.
+
+Theorem segname_injective_full i s j t :
+  i < max_u16 -> s < max_u64 -> j < max_u16 -> t < max_u64 ->
+  name_str (FSeg i s) = name_str (FSeg j t) -> (i, s) = (j, t).
+Proof.
+  intros Hi Hs Hj Ht E.
+  assert (P : parse_segment_name (name_str (FSeg i s)) = parse_segment_name (name_str (FSeg j t)))
+    by (rewrite E; reflexivity).
+  rewrite !segname_roundtrip_full in P by assumption. congruence.
+Qed.
+
+Theorem segname_injective i s j t :
+  i < 32768 -> s < 10 ^ 19 -> j < 32768 -> t < 10 ^ 19 ->
+  (i, s) <> (j, t) -> name_str (FSeg i s) <> name_str (FSeg j t).
+Proof.
+  intros Hi Hs Hj Ht Hne E. apply Hne.
+  apply segname_injective_full; try (apply small_id_u16; assumption); try exact E;
+    (eapply N.lt_trans; [eassumption|exact pow10_19_u64]).
+Qed.
+
+(* ---- a segment name is not the name of any other file: the last four bytes differ ---- *)
+Definition suffix4 (l : bytes) : bytes := firstn 4 (rev l).
+
+Lemma suffix4_app_ge a b : (4 <= length b)%nat -> suffix4 (a ++ b) = suffix4 b.
+Proof.
+  intros H. unfold suffix4. rewrite rev_app_distr, firstn_app, rev_length.
+  replace (4 - length b)%nat with 0%nat by lia. cbn [firstn]. apply app_nil_r.
+Qed.
+
+Lemma suffix4_ext a b : length b = 4%nat -> suffix4 (a ++ b) = rev b.
+Proof.
+  intros H. rewrite suffix4_app_ge by lia. unfold suffix4.
+  apply firstn_all2. rewrite rev_length. lia.
+Qed.
+
+Lemma suffix4_seg id seq : suffix4 (name_str (FSeg id seq)) = rev ext_psg.
+Proof. rewrite name_seg_eq. apply suffix4_ext. reflexivity. Qed.
+
+Lemma name_segmeta_eq id seq :
+  name_str (FSegMeta id seq) = (pad5 (decimal id) ++ [45] ++ decimal seq ++ ext_psg) ++ ext_pmt.
+Proof. cbn [name_str]. rewrite <- !app_assoc. reflexivity. Qed.
+
+Definition is_seg (f : fname) : Prop := match f with FSeg _ _ => True | _ => False end.
+
+Lemma suffix4_other g : ~ is_seg g -> suffix4 (name_str g) <> rev ext_psg.
+Proof.
+  intros Hg. destruct g as [i s|i s| | | | | |g].
+  - exfalso. apply Hg. exact I.
+  - rewrite name_segmeta_eq, suffix4_ext by reflexivity. discriminate.
+  - cbn [name_str]. rewrite suffix4_ext by reflexivity. discriminate.
+  - cbn [name_str]. rewrite suffix4_ext by reflexivity. discriminate.
+  - cbn [name_str]. rewrite suffix4_ext by reflexivity. discriminate.
+  - cbn [name_str]. rewrite suffix4_ext by reflexivity. discriminate.
+  - cbn [name_str]. discriminate.
+  - cbn [name_str]. rewrite suffix4_ext by reflexivity. discriminate.
+Qed.
+
+Theorem segment_names_distinct_from_others id seq g :
+  ~ is_seg g -> name_str (FSeg id seq) <> name_str g.
+Proof.
+  intros Hg E. apply (suffix4_other g Hg). rewrite <- E. apply suffix4_seg.
+Qed.
+
+(* the same, one kind of file at a time *)
+Corollary segment_name_not_other id seq :
+  (forall i s, name_str (FSeg id seq) <> name_str (FSegMeta i s)) /\
+  name_str (FSeg id seq) <> name_str FMain /\
+  name_str (FSeg id seq) <> name_str FOverflow /\
+  name_str (FSeg id seq) <> name_str FIndexMeta /\
+  name_str (FSeg id seq) <> name_str FDbMeta /\
+  name_str (FSeg id seq) <> name_str FLock /\
+  (forall f, name_str (FSeg id seq) <> name_str (FBac f)).
+Proof.
+  repeat split; intros; apply segment_names_distinct_from_others; intros H; exact H.
+Qed.
+
+(* ==== 4. examples ==== *)
+Definition ex_slot1 : slot :=
+  {| sl_h := 16909060 (* 0x01020304 *); sl_seg := 1; sl_ks := 3; sl_vs := 5; sl_off := 512 |}.
+Definition ex_slot2 : slot :=
+  {| sl_h := 2864434397 (* 0xAABBCCDD *); sl_seg := 258 (* 0x0102 *); sl_ks := 256 (* 0x0100 *);
+     sl_vs := 65536 (* 0x00010000 *); sl_off := 305419896 (* 0x12345678 *) |}.
+
+Example ex_marshal_slot1 :
+  marshal_slot ex_slot1 = [4; 3; 2; 1;  1; 0;  3; 0;  5; 0; 0; 0;  0; 2; 0; 0].
+Proof. vm_compute. reflexivity. Qed.
+
+Example ex_marshal_bucket :
+  marshal_bucket [ex_slot1; ex_slot2] 1024 =
+    [4; 3; 2; 1;  1; 0;  3; 0;  5; 0; 0; 0;  0; 2; 0; 0] ++
+    [221; 204; 187; 170;  2; 1;  0; 1;  0; 0; 1; 0;  120; 86; 52; 18] ++
+    zeros (29 * 16) ++
+    [0; 4; 0; 0; 0; 0; 0; 0] ++
+    zeros 8.
+Proof. vm_compute. reflexivity. Qed.
+
+Example ex_marshal_bucket_len : nlen (marshal_bucket [ex_slot1; ex_slot2] 1024) = 512.
+Proof. vm_compute. reflexivity. Qed.
+
+Example ex_unmarshal_bucket :
+  unmarshal_bucket (marshal_bucket [ex_slot1; ex_slot2] 1024) =
+    ([ex_slot1; ex_slot2] ++ repeat empty_slot 29, 1024) /\
+  dense (fst (unmarshal_bucket (marshal_bucket [ex_slot1; ex_slot2] 1024))) = [ex_slot1; ex_slot2].
+Proof. vm_compute. split; reflexivity. Qed.
+
+Example ex_empty_bucket : marshal_bucket [] 0 = zeros 512.
+Proof. vm_compute. reflexivity. Qed.
+
+Example ex_header :
+  ntake 12 header_bytes = [112; 111; 103; 114; 101; 98; 14; 253;  2; 0; 0; 0] /\
+  ndrop 12 header_bytes = zeros 500.
+Proof. vm_compute. split; reflexivity. Qed.
+
+(* "00003-17.psg" *)
+Example ex_segname :
+  name_str (FSeg 3 17) = [48; 48; 48; 48; 51;  45;  49; 55;  46; 112; 115; 103].
+Proof. vm_compute. reflexivity. Qed.
+
+(* "00003-17.psg.pmt" *)
+Example ex_segmetaname :
+  name_str (FSegMeta 3 17) = [48; 48; 48; 48; 51;  45;  49; 55;  46; 112; 115; 103;  46; 112; 109; 116].
+Proof. vm_compute. reflexivity. Qed.
+
+Example ex_parse_segname :
+  parse_segment_name [48; 48; 48; 48; 51;  45;  49; 55;  46; 112; 115; 103] = Some (3, 17).
+Proof. vm_compute. reflexivity. Qed.
+
+(* "00003.psg": a version-1 name, sequence ID 0 *)
+Example ex_parse_legacy : parse_segment_name [48; 48; 48; 48; 51;  46; 112; 115; 103] = Some (3, 0).
+Proof. vm_compute. reflexivity. Qed.
+
+(* "65536-1.psg": the id does not fit uint16;  "main.pix", "-1.psg", "3-.psg": not numbers *)
+Example ex_parse_rejects :
+  parse_segment_name [54; 53; 53; 51; 54;  45;  49;  46; 112; 115; 103] = None /\
+  parse_segment_name [109; 97; 105; 110; 46; 112; 105; 120] = None /\
+  parse_segment_name [45; 49; 46; 112; 115; 103] = None /\
+  parse_segment_name [51; 45; 46; 112; 115; 103] = None.
+Proof. vm_compute. repeat split; reflexivity. Qed.
+
+(* the largest names *)
+Example ex_parse_max :
+  parse_segment_name (name_str (FSeg 65535 18446744073709551615)) = Some (65535, 18446744073709551615).
+Proof. vm_compute. reflexivity. Qed.
+
+Print Assumptions marshal_bucket_length.
+Print Assumptions slot_roundtrip.
+Print Assumptions bucket_roundtrip.
+Print Assumptions bucket_dense_roundtrip.
+Print Assumptions marshal_bucket_bytes.
+Print Assumptions marshal_bucket_inj.
+Print Assumptions marshal_bucket_inj_dense.
+Print Assumptions marshal_bucket_inj_len.
+Print Assumptions header_roundtrip.
+Print Assumptions header_ok_rejects.
+Print Assumptions header_ok_accepts.
+Print Assumptions decimal_digits.
+Print Assumptions parse_decimal_decimal.
+Print Assumptions decimal_fuel_enough.
+Print Assumptions segname_roundtrip_full.
+Print Assumptions segname_roundtrip.
+Print Assumptions segname_injective_full.
+Print Assumptions segname_injective.
+Print Assumptions segment_names_distinct_from_others.
+Print Assumptions segment_name_not_other.
+Print Assumptions ex_marshal_bucket.
+Print Assumptions ex_segname.
